@@ -50,7 +50,8 @@ func (c14) NumCases(tier string, _ int64) int {
 }
 func (c14) Exhaustive(string) bool { return false }
 func (c14) Floors(string) []runner.Floor {
-	return []runner.Floor{{Stat: "undo_redo_calls", Min: 50000}, {Stat: "content_positions_compared", Min: 40000}, {Stat: "exhaustive_programs", Min: 2000}, {Stat: "peer_deliveries", Min: 3000}}
+	return []runner.Floor{{Stat: "undo_redo_calls", Min: 50000}, {Stat: "content_positions_compared", Min: 40000}, {Stat: "exhaustive_programs", Min: 2000}, {Stat: "peer_deliveries", Min: 3000},
+		{Stat: "collect_steps", Min: 5000}, {Stat: "tombstones_purged", Min: 10000}, {Stat: "undo_redo_recreated_a_purged_node", Min: 200}}
 }
 
 type c14Worker struct {
